@@ -2,8 +2,8 @@ package rules
 
 func init() {
 	register("C01", Meta{
-		Explanation: "Static sibling agreement: for all 54 node types the fragger (ast positions → fragments), decorate (ast→dst) and restore (dst→ast + synthetic positions) agree on the ordered schema of decoration points, tokens, strings and children, with equivalent guards and symmetric value fields; parse entry points force ParseComments; print entry points print with the restorer's own FileSet. Decides these structural necessary conditions for every input at once; does not decide byte equality through go/printer nor comment attachment heuristics.",
-		NotCovered:  []string{"byte equality through go/printer", "link() attachment heuristics", "mergeDecorations layouts"},
+		Explanation: "Static sibling agreement: for all 54 node types the fragger (ast positions → fragments), decorate (ast→dst) and restore (dst→ast + synthetic positions) agree on the ordered schema of decoration points, tokens, strings and children, with equivalent guards and symmetric value fields; parse entry points force ParseComments; print entry points print with the restorer's own FileSet. Decides these structural necessary conditions for every input at once; the hanging comments of a case / comm clause are searched at the indent of its body on every path; a line-break decoration never starts the new line where the restored content ends (line-state machine). Does not decide byte equality through go/printer nor the other comment attachment heuristics.",
+		NotCovered:  []string{"byte equality through go/printer", "link() attachment heuristics other than the hanging-indent rule of clauses", "mergeDecorations layouts"},
 	}, func(e *Env) {
 		e.RCover("fragger", e.astNodeNames(), false)
 		e.RCover("decorate", e.astNodeNames(), false)
@@ -19,6 +19,7 @@ func init() {
 		e.RHangGuard()
 		e.RCursor(false)
 		e.RColumnOne()
+		e.markerDiscipline()
 		e.RFragHelpers()
 		e.RFragOrder()
 	})
